@@ -547,3 +547,62 @@ def takeset_atomic(ctx, P, rule="TAKESET-ATOMIC", floor=8):
                "%s after free_columns(self): buffers already taken are freed twice when it fails" % late[0][1])
     ctx.floor(rule, floor)
     return n
+
+
+def shifted_index(ctx, P, scope, rule="SHIFTED-INDEX", tus=None):
+    from sa.expr import strip, walk, estr, const_int
+    from .lib_mem import _loop_counter
+    ctx.rule(rule, "inside a loop that derives a row index from its counter by a non-constant offset (`k = start + j`), the columns "
+                   "of one object are subscripted consistently: no array (and no two columns of the same table) is indexed by the "
+                   "raw counter in one place and by the shifted index in another (`metadata_offset[k]` next to "
+                   "`metadata_offset[j + 1]` reads another row's length)")
+    n = 0
+    for key in (tus or LIB_TUS):
+        tu = P.tus[key]
+        for fn in tu.funcs.values():
+            if not scope(key, fn.name) or fn.body is None:
+                continue
+            kk = 0
+            for lp in walk(fn.body):
+                if lp.k != "ForStmt":
+                    continue
+                j = _loop_counter(lp)
+                if not j:
+                    continue
+                body = lp.kids[-1]
+                shifted = {}
+                for x in walk(body):
+                    if x.k == "BinaryOperator" and x.op == "=":
+                        l, r = strip(x.kids[0]), strip(x.kids[1])
+                        if l is not None and l.k == "DeclRefExpr" and r is not None and r.k == "BinaryOperator" and r.op == "+" \
+                                and "*" not in (l.ty or ""):
+                            a, b = strip(r.kids[0]), strip(r.kids[1])
+                            ops = [estr(a), estr(b)]
+                            if j in ops and l.ref != j:
+                                other = b if ops[0] == j else a
+                                if const_int(other) is None:
+                                    shifted[l.ref] = estr(r)
+                if not shifted:
+                    continue
+                uses = {}
+                for x in walk(body):
+                    if x.k == "ArraySubscriptExpr":
+                        base, idx = estr(x.kids[0]), estr(x.kids[1])
+                        toks = set(re.findall(r"[A-Za-z_]\w*", idx))
+                        kind = "raw" if (j in toks and not (toks & set(shifted))) else "shifted" if (toks & set(shifted) and j not in toks) else None
+                        if kind:
+                            uses.setdefault(base, {}).setdefault(kind, x)
+                owners = {}
+                for b, ks in uses.items():
+                    m = re.search(r"^(.*)(->|\.)\w+$", b)
+                    own = m.group(1) if m else b
+                    for kd, x in ks.items():
+                        owners.setdefault(own, {}).setdefault(kd, (b, x))
+                for own, ks in sorted(owners.items()):
+                    n += 1
+                    mixed = len(ks) > 1
+                    ctx.ob(rule, "%s@%d|%s" % (fn.name, kk, own), not mixed, tu.loc(ks["raw"][1]) if mixed else tu.loc(lp),
+                           "%s is indexed by the %s index only" % (own, list(ks)[0]) if not mixed else
+                           "%s[%s…] uses the raw counter while %s[…] uses the shifted index %s" % (ks["raw"][0], j, ks["shifted"][0], shifted))
+                kk += 1
+    return n
